@@ -685,4 +685,31 @@ def c03_j(ctx: Ctx):
     return res
 
 
-RULES = [c03_a, c03_b, c03_c, c03_d, c03_e, c03_f, c03_g, c03_h, c03_i, c03_j]
+@rule("C03-k")
+def c03_k(ctx: Ctx):
+    """What clear() / remove() / reset() delete is named by paths inside the job directory as listed; a path is never resolved (realpath / readlink) before it is
+    deleted - a link inside a job directory may point to another job, and deleting its target removes that other job's data."""
+    R = "C03-k"
+    out = []
+    n = 0
+    for q in ("signac.job:Job.clear", "signac.job:Job.remove", "signac.job:Job.reset"):
+        f = ctx.prog.funcs.get(q)
+        if f is None:
+            continue
+        for e in ctx.effects.direct(f):
+            if e.kind != "delete" or e.target is None:
+                continue
+            n += 1
+            t = common.inline_at(ctx, f, e.target, e.node)
+            res = [c for c in ast.walk(t) if isinstance(c, ast.Call) and (dotted(c.func) or "").split(".")[-1] in ("realpath", "readlink", "resolve")]
+            k = f"{q}|deletes-as-listed"
+            if res:
+                out.append(ctx.viol(R, f, e.node, f"{e.prim}({canon(t)[:60]}) deletes what a link points to: a link in the job directory that leads to another job's directory wipes that "
+                                    "other job, so ids, len and iteration diverge from what the operations say", construct=k))
+            else:
+                out.append(ctx.ok(R, f, e.node, f"{e.prim} is applied to the path as listed", construct=k))
+    if not n:
+        out.append(ctx.inc(R, None, None, "no deleting primitive in Job.clear / remove / reset"))
+    return out
+
+RULES = [c03_a, c03_b, c03_c, c03_d, c03_e, c03_f, c03_g, c03_h, c03_i, c03_j, c03_k]
